@@ -149,8 +149,6 @@ open_(['C03'], r'undecided\.[A-Z_]+:\{[^}]+\}.*',
 open_(['C03'], r'undecided\.ERROR:\{\}\+onlyreal',
       'default exact options, real-only sync mode: an LP whose double image is unbounded only by a rounding-level slope (1x6, coefficients 1/3, 2/3, 7000000049/3 rounded to doubles) is not decided: the floating-point solves keep reporting optimal, precision boosting runs into multiprecision_limit and the solve ends with ERROR', regex=True,
       repro='findings/C03_default_onlyreal_undecided.cpp')
-open_(['C03', 'C04', 'C11'], r'crash:asan:heap-buffer-overflow:CLUFactorRational::solveLleft\|SoPlexBase::getBasisInverseRowRational.*',
-      'getBasisInverseRowRational runs into the defective sparse left solve of the rational LU (C11 known finding: an index that cancels and refills is queued twice; heap-buffer-overflow in CLUFactorRational::solveLleft)', regex=True)
 open_(['C03', 'C04', 'C11'], r'.*lifting=1.*',
       'exact solve with lifting=1: heap-buffer-overflow / use-after-free in _lowerFinite/_transformEquality (bound-type arrays not resized for the lifted LP), wrong verdicts, invalid Farkas proofs and rays', regex=True)
 open_(['C03'], r'objvalue.*:\{.*iterative_refinement=0.*\}.*',
